@@ -1913,23 +1913,25 @@ func runR205(c *core.Ctx) {
 	const rel = "codegen/utils"
 	inf := info(c, rel)
 	cf, fd := mustDecl(c, rel, "CleanTargetDir")
-	par := core.Parents(fd)
-	if fd.Type.Params == nil || len(fd.Type.Params.List) != 1 || len(fd.Type.Params.List[0].Names) != 1 {
-		c.Unknown(rel, "CleanTargetDir", "directory parameter", fd.Pos(), "unexpected signature")
-		return
-	}
-	param := inf.Defs[fd.Type.Params.List[0].Names[0]]
+	comp := cleanerComponent(c, rel, cf)
 	var reassigned []string
-	ast.Inspect(fd.Body, func(n ast.Node) bool {
-		if as, ok := n.(*ast.AssignStmt); ok {
-			for _, l := range as.Lhs {
-				if id, ok := core.Unparen(l).(*ast.Ident); ok && inf.Uses[id] == param {
-					reassigned = append(reassigned, c.M.Position(as.Pos()))
+	for _, cfd := range comp {
+		if cfd.Type.Params == nil || len(cfd.Type.Params.List) != 1 || len(cfd.Type.Params.List[0].Names) != 1 {
+			c.Unknown(rel, core.DeclName(cfd), "directory parameter", cfd.Pos(), "unexpected signature")
+			return
+		}
+		param := inf.Defs[cfd.Type.Params.List[0].Names[0]]
+		ast.Inspect(cfd.Body, func(n ast.Node) bool {
+			if as, ok := n.(*ast.AssignStmt); ok {
+				for _, l := range as.Lhs {
+					if id, ok := core.Unparen(l).(*ast.Ident); ok && inf.Uses[id] == param {
+						reassigned = append(reassigned, c.M.Position(as.Pos()))
+					}
 				}
 			}
-		}
-		return true
-	})
+			return true
+		})
+	}
 	c.Check(len(reassigned) == 0, rel, "CleanTargetDir", "the directory parameter reaches the \".\" guards as given", fd.Pos(), "",
 		"the parameter is reassigned at "+strings.Join(reassigned, ", ")+": after normalisation the comparison with \".\" never holds and an emptied current directory is removed")
 	// manifest removal sites: os.Remove(filepath.Join(x, <manifest const>))
@@ -1952,50 +1954,18 @@ func runR205(c *core.Ctx) {
 		})
 		return found
 	}
-	closures := localClosures(inf, fd)
 	n, bad := 0, 0
-	ast.Inspect(fd.Body, func(x ast.Node) bool {
-		call, ok := x.(*ast.CallExpr)
-		if !ok || enclosingFuncLit(par, call) == nil {
-			return true
-		}
-		isDirGuard := core.GuardedByFact(inf, par, core.EnclosingStmt(par, call), func(fa core.Fact) bool {
-			hc, ok := core.Unparen(fa.Expr).(*ast.CallExpr)
-			if !ok || !fa.Val {
-				return false
-			}
-			sel, ok := core.Unparen(hc.Fun).(*ast.SelectorExpr)
-			return ok && sel.Sel.Name == "IsDir"
-		}, nil)
-		if !isDirGuard {
-			return true
-		}
-		var target ast.Node
-		if f := core.Callee(inf, call); f == cf {
-			target = fd.Body
-		} else if id, ok := core.Unparen(call.Fun).(*ast.Ident); ok {
-			if fl := closures[inf.Uses[id]]; fl != nil {
-				target = fl.Body
-			}
-		}
-		if target == nil {
-			return true
+	for _, d := range cleanerDescents(c, rel, comp) {
+		if !d.underIsDir(inf) {
+			continue
 		}
 		n++
-		// the outer function's own manifest removal sits outside the closure: look at the target body excluding nested closures
-		ok2 := false
-		if target == ast.Node(fd.Body) {
-			ok2 = removesManifest(fd.Body)
-		} else {
-			ok2 = removesManifest(target)
-		}
-		if !ok2 {
+		if !removesManifest(d.target) {
 			bad++
-			c.Bad(rel, "CleanTargetDir", fmt.Sprintf("sub-directory recursion #%d removes the manifest of the directory it enters", n), call.Pos(),
+			c.Bad(rel, "CleanTargetDir", fmt.Sprintf("sub-directory recursion #%d removes the manifest of the directory it enters", n), d.call.Pos(),
 				"the recursive call goes to a function that never removes the manifest file: manifests below the top level survive cleaning")
 		}
-		return true
-	})
+	}
 	if bad == 0 {
 		c.Check(n > 0, rel, "CleanTargetDir", "sub-directory recursion removes the manifest of every directory it enters", fd.Pos(), fmt.Sprintf("%d recursive calls", n), "no recursive call under IsDir() found")
 	}
